@@ -1,5 +1,6 @@
 import inspect
 import math
+import threading
 from dataclasses import dataclass
 from itertools import count
 from types import CodeType
@@ -8,6 +9,11 @@ from . import _verif
 from .mro import sort_types
 from .recode import generate_dependent_dispatch
 from .utils import MISSING, subtler_type
+
+
+# Building an ovld and resolving a new tuple of types both update shared
+# tables in several steps: only one thread at a time may do that.
+resolution_lock = threading.RLock()
 
 
 class TypeMap(dict):
@@ -398,6 +404,10 @@ class MultiTypeMap(dict):
         return True
 
     def __missing__(self, obj_t_tup):
+        with resolution_lock:
+            return self._missing(obj_t_tup)
+
+    def _missing(self, obj_t_tup):
         if obj_t_tup and isinstance(obj_t_tup[0], CodeType):
             real_tup = obj_t_tup[1:]
             self[real_tup]
